@@ -50,7 +50,7 @@ OPTIONS = {
     "pngquant_flags": ("cbdt", ["--speed 10 --quality 1-5", "--speed 3 --quality 30-40"], None),
     "glyphmap_generator": ("glyf_colr_1", ["vf.tools.alt_glyphmap", "vf.tools.alt_glyphmap_seq"], "nanoemoji.write_glyphmap"),
 }
-PAIR_OPTIONS = ["clip_to_viewbox", "bitmap_resolution", "pngquant_flags", "use_pngquant", "use_zopflipng", "reuse_tolerance", "upem", "ascender", "color_format", "width", "keep_glyph_names", "transform"]
+PAIR_OPTIONS = ["clip_to_viewbox", "bitmap_resolution", "pngquant_flags", "use_pngquant", "use_zopflipng", "reuse_tolerance", "upem", "ascender", "color_format", "width", "keep_glyph_names", "transform", "glyphmap_generator"]
 
 
 def all_single():
@@ -70,6 +70,8 @@ def plan(tier, seed):
         fmt, vals, dflt = OPTIONS[opt]
         if opt == "color_format":
             pairs += [(opt, "glyf_colr_1", "picosvg"), (opt, "cbdt", "sbix"), (opt, "glyf_colr_0", "cff_colr_1")]
+        elif opt == "glyphmap_generator":
+            pairs += [(opt, "vf.tools.alt_glyphmap", "nanoemoji.write_glyphmap"), (opt, "nanoemoji.write_glyphmap", "vf.tools.alt_glyphmap")]
         else:
             a = vals[0]
             b = vals[1] if len(vals) > 1 else dflt
@@ -442,6 +444,8 @@ def run_pair(case):
                 cfg[opt] = v
             if cf in ("cbdt", "sbix") and "bitmap_resolution" not in cfg:
                 cfg["bitmap_resolution"] = 32
+            if opt == "glyphmap_generator":
+                cfg["keep_glyph_names"] = True  # the generator's names are its observable
             cfgs.append(cfg)
 
         def run(tag, which):
